@@ -455,6 +455,15 @@ Proof.
   destruct (ALL a) as [P N]. unfold push_pre. now rewrite P, N.
 Qed.
 
+(* after clear, whatever the list held, any node - a former first, middle or last one included - can be registered, and is
+   then the only element *)
+Lemma clear_then_push l s fuel n : repr l s -> length l <= fuel ->
+  push_pre (clear fuel s) n = true /\ repr [n] (push_back (clear fuel s) n).
+Proof.
+  intros R Hfuel. split; [exact (clear_push_pre l s fuel R Hfuel n)|].
+  apply (push_back_refines [] (clear fuel s) n); [exact (clear_refines l s fuel R Hfuel)|]. intros [].
+Qed.
+
 Lemma reregister l s n : repr l s -> In n l ->
   push_pre (remove s n) n = true /\ repr (remove_elt n l ++ [n]) (push_back (remove s n) n).
 Proof.
